@@ -68,7 +68,11 @@ def gen_model(rng, modname, profile="orm"):
             ufields = [{"name": f"u{i}_0", "kind": rng.choice(["int", "str", "opt_float"]), "target": None}] if rng.random() < 0.6 else []
             classes.append({"name": un, "parent": parent, "fields": ufields, "unmapped": True})
             parent = un
-        classes.append({"name": nm, "parent": parent, "fields": fields})
+        cd = {"name": nm, "parent": parent, "fields": fields}
+        if profile == "rt" and rng.random() < 0.15:
+            # a container-like / flag-like domain class whose instances are falsy: still an object like any other
+            cd["falsy"] = rng.choice(["len", "bool"])
+        classes.append(cd)
     order = list(names)
     rng.shuffle(order)
     spec = {"module": modname, "classes": classes, "order": order, "profile": profile}
@@ -145,6 +149,10 @@ def render(spec, postponed=True):
         for f in c["fields"]:
             ann, dflt = annotation(f, quote=not postponed)
             lines.append(f"    {f['name']}: {ann} = {dflt}")
+        if c.get("falsy") == "len":
+            lines.extend(["", "    def __len__(self):", "        return 0"])
+        elif c.get("falsy") == "bool":
+            lines.extend(["", "    def __bool__(self):", "        return False"])
         lines.append("")
         lines.append("")
 
